@@ -16,6 +16,7 @@ import (
 	"io/ioutil"
 	"os"
 	osexec "os/exec"
+	"reflect"
 	"runtime"
 	"runtime/debug"
 	"sort"
@@ -31,7 +32,11 @@ import (
 	"github.com/grailbio/bigslice"
 	"github.com/grailbio/bigslice/exec"
 	"github.com/grailbio/bigslice/internal/defaultsize"
+	"github.com/grailbio/base/compress/zstd"
+	"github.com/grailbio/bigslice/frame"
+	"github.com/grailbio/bigslice/internal/vfault"
 	"github.com/grailbio/bigslice/internal/vtr"
+	"github.com/grailbio/bigslice/slicetype"
 	"github.com/grailbio/bigslice/metrics"
 	"github.com/grailbio/bigslice/sliceio"
 )
@@ -71,7 +76,10 @@ type step struct {
 	Res   string   `json:"res"`
 	Prog  *prog    `json:"prog,omitempty"`
 	Args  []string `json:"args"`
-	N     int      `json:"n,omitempty"`     // sleep: milliseconds
+	N     int      `json:"n,omitempty"`     // sleep: milliseconds; cachefiles/cachedelete: number of shards
+	Prefix string   `json:"prefix,omitempty"` // cachefiles/cachedelete
+	Shards []int    `json:"shards,omitempty"` // cachedelete
+	Faults [][]interface{} `json:"faults,omitempty"` // faults: [kind, at] plans for the vfault file layer
 	Steps [][]step `json:"steps,omitempty"` // par: groups run concurrently, each group sequential
 }
 
@@ -669,6 +677,32 @@ func (r *runner) doStep(ctx context.Context, st *step, lane int) {
 		r.emit(vtr.Rec{"do": "discard-done", "res": st.Res, "lane": lane})
 	case "sleep":
 		time.Sleep(time.Duration(st.N) * time.Millisecond)
+	case "faults":
+		vfault.ClearPlans()
+		for _, f := range st.Faults {
+			vfault.Fail(f[0].(string), int(f[1].(float64)))
+		}
+		r.emit(vtr.Rec{"do": "faults", "lane": lane, "nfaults": len(st.Faults)})
+	case "cachedelete":
+		for _, sh := range st.Shards {
+			_ = os.Remove(vfault.Local(fmt.Sprintf("%s-%04d-of-%04d", st.Prefix, sh, st.N)))
+		}
+		shards := st.Shards
+		if shards == nil {
+			shards = []int{}
+		}
+		r.emit(vtr.Rec{"do": "cachedelete", "lane": lane, "prefix": st.Prefix, "shards": shards})
+	case "cachefiles":
+		files := map[string]interface{}{}
+		for sh := 0; sh < st.N; sh++ {
+			files[fmt.Sprint(sh)] = readCacheFile(vfault.Local(fmt.Sprintf("%s-%04d-of-%04d", st.Prefix, sh, st.N)))
+		}
+		// anything else under the prefix (temporary files are not shard files and are ignored by readers)
+		lg := vfault.Log()
+		if len(lg) > 40 {
+			lg = lg[len(lg)-40:]
+		}
+		r.emit(vtr.Rec{"do": "cachefiles", "lane": lane, "prefix": st.Prefix, "n": st.N, "files": files, "fileops": lg})
 	case "par":
 		r.emit(vtr.Rec{"do": "parbegin", "lane": lane, "n": len(st.Steps)})
 		var wg sync.WaitGroup
@@ -775,8 +809,43 @@ func runScenario(sc *scenario) (rec vtr.Rec) {
 }
 
 func init() {
+	if d, err := ioutil.TempDir(vtr.OutDir(), "vfault"); err == nil {
+		vfault.Reset(d)
+	}
 	// same shape as the production policy (exponential back-off, 5 retries), scaled down
 	exec.VerifSetRetryPolicy(retry.MaxRetries(retry.Backoff(20*time.Millisecond, 200*time.Millisecond, 2), 5))
+}
+
+// readCacheFile decodes a cache shard file the way a later run would: "absent", "corrupt:<why>" or its rows.
+func readCacheFile(path string) vtr.Rec {
+	bad := func(why string) vtr.Rec { return vtr.Rec{"state": "corrupt", "rows": [][]int{}, "why": why} }
+	f, err := os.Open(path)
+	if err != nil {
+		return vtr.Rec{"state": "absent", "rows": [][]int{}, "why": ""}
+	}
+	defer f.Close()
+	zr, err := zstd.NewReader(f)
+	if err != nil {
+		return bad(err.Error())
+	}
+	defer zr.Close()
+	rd := sliceio.NewDecodingReader(zr)
+	typ := slicetype.New(reflect.TypeOf(int(0)), reflect.TypeOf(int(0)))
+	rows := [][]int{}
+	ctx := context.Background()
+	for {
+		fr := frame.Make(typ, 64, 64)
+		n, err := rd.Read(ctx, fr)
+		for i := 0; i < n; i++ {
+			rows = append(rows, []int{int(fr.Index(0, i).Int()), int(fr.Index(1, i).Int())})
+		}
+		if err == sliceio.EOF {
+			return vtr.Rec{"state": "ok", "rows": rows, "why": ""}
+		}
+		if err != nil {
+			return bad(err.Error())
+		}
+	}
 }
 
 // runIsolated runs one scenario in a child process (this test binary re-executed), so that a crash of the
